@@ -10,6 +10,7 @@ from engine import pat
 from engine.util import own_nodes, calls_with_nodes, where, with_exprs
 
 RULES = {
+    "R-03.12": "equal records hash equally (C07 R-07.3 adopted): the renderer writes every member of the rdata set and the parser merges equal ones",
     "R-03.11": "only the RDATA names the reader may find compressed are written compressed: the set of record writers that hand the message's compression table to an embedded name (or name helper) is the reasoned table below - any other type writes its names uncompressed (RFC 3597 4; e.g. the NSEC next name is case-preserving while the table is keyed case-insensitively)",
     "R-03.10": "0 is a message id like any other: optional numbers of the renderer and message constructors (id, flags, sizes) are tested for presence by identity with None, never by truth value (DoH and DoQ send id 0; a renderer that re-rolls id 0 makes parse(render(m)) != m)",
     "R-03.9": "EDNS options and records keep every field through parse: a value read from the wire is never dropped on the way to the constructor (C02 R-02.7 adopted)",
@@ -213,7 +214,8 @@ def run(model, rep, tier):
               "every question read from the wire becomes its own entry (find_rrset(create=True, force_unique=True))",
               f"questions are stored with {kwq}: a repeated question is folded into the first one, so the parsed message has fewer questions than QDCOUNT and re-renders to different octets", stmt="question-unique")
     rep.share(model, "C01", {"R-01.3", "R-01.4"}, "R-03.7", "every compressed name in a rendered message is a pointer produced by Name.to_wire from the table offsets")
-    rep.share(model, "C08", {"R-08.6"}, "R-03.8", "re-rendering a parsed message must not hit a limit the original did not have: the default limit comes from request_payload (0 on a parsed message), not from the message's own OPT")
+    rep.share(model, "C07", {"R-07.3"}, "R-03.12", "an RRset is a hash set of rdatas: records that are equal but hash differently are both rendered, then merged by the parser, so the header counts exceed the records parsed back")
+    rep.share(model, "C08", {"R-08.2", "R-08.6"}, "R-03.8", "re-rendering a parsed message must not hit a limit the original did not have: the default limit comes from request_payload (0 on a parsed message), not from the message's own OPT")
     rep.share(model, "C02", {"R-02.7"}, "R-03.9", "the OPT record's options and every rdata of a message are decoded by the per-type from_wire_parser methods")
     COMPRESSORS = {
         "dns.rdtypes.ANY.SOA.SOA._to_wire": "RFC 1035 type (mname, rname)",
